@@ -16,6 +16,13 @@ for d in sorted(glob.glob(os.path.join(os.path.dirname(os.path.abspath(__file__)
     caught = ", ".join(r.get("caught_by", [])) or "—"
     ok = all([r.get("applies"), r.get("builds"), not r.get("baseline_missing"), r.get("demo_fails_with_patch"), r.get("demo_passes_without_patch")])
     how = m.get("caught_how", "")
+    if not how:
+        for c, v in (r.get("checks") or {}).items():
+            f = v.get("first") or {}
+            if f:
+                how = f"{f.get('suite','')}/{f.get('kind','')}: {' '.join(str(f.get('note','')).split())[:80]}"
+                if f.get("impl"): how += " — impl `" + " ".join(str(f.get("impl")).split())[:60].replace("|", "/") + "`"
+                break
     rows.append(f"| {os.path.basename(d)} | {m.get('property','?')} | {summ} | {'yes' if ok else 'NO'} | {caught} | {how} |")
 print("| Seed | Property | Change | confirmed (applies, builds, 30 baseline tests pass, demo fails with / passes without) | Caught by (quick tier) | How |")
 print("|---|---|---|---|---|---|")
